@@ -5,6 +5,7 @@ package acl
 // with its definition, over all small inputs, and prints the first disagreement.
 
 import (
+	"os"
 	"strings"
 	"testing"
 )
@@ -49,8 +50,12 @@ func allStrings(alpha []string, max int) []string {
 
 func TestVerifReplayACL(t *testing.T) {
 	alpha := []string{"a", "*", "/", ".", "\n", "+", "é"}
-	pats := allStrings(alpha, 3)
-	names := allStrings([]string{"a", "/", ".", "\n", "+", "é", "*"}, 4)
+	pl, nl := 3, 4
+	if os.Getenv("VERIF_REPLAY_DEEP") != "" {
+		pl, nl = 4, 5 // thorough tier: all patterns up to length 4 against all names up to length 5
+	}
+	pats := allStrings(alpha, pl)
+	names := allStrings([]string{"a", "/", ".", "\n", "+", "é", "*"}, nl)
 	for _, p := range pats {
 		for _, n := range names {
 			got := func() (r bool) {
